@@ -6,6 +6,7 @@ import Mathlib.Data.Matrix.Mul
 import Mathlib.Algebra.BigOperators.Fin
 import Mathlib.Tactic.SplitIfs
 import Mathlib.Tactic.Ring
+import Mathlib.Algebra.Order.Field.Basic
 
 namespace PrecondVerif.LowRank
 variable {α : Type}
@@ -284,5 +285,133 @@ def permEquiv (d : Nat) (neg : Bool) (k : Nat) (hk : k ≤ d) : Fin d ≃ Fin d 
     · simp only [perm, permInv, if_true]
       exact roll_roundtrip d (d - k) k j.val j.isLt (by omega)
 
+
+/-! ### the packed root -/
+
+/-- in the rolled / flipped order `σ`, the matrix denoted by the root's fields is `U' diag(w) U'ᵀ` with the first `r`
+directions keeping their own root value and every other direction getting `const`; only `U Uᵀ = 1` is used -/
+theorem denote_root_fields [Field α] [BEq α] [Max α] {d r : Nat} (hr : r ≤ d) (pw : α → α) (neg : Bool)
+    (ps : Option Nat) (ridge : α) (e : Vec α d) (U : Mat α d d) (hU : toM U * (toM U)ᵀ = 1) :
+    let F := lowRankRootFields hr pw neg ps ridge e U
+    let σ := perm d neg (d - ps.getD d)
+    let invE := invEigs pw ridge (maskedEigs ps e)
+    toM (denote F.eigvecs F.invEigvals F.const) =
+      toM (fun a k => U a (σ k)) * Matrix.diagonal (fun k => if k.val < r then invE (σ k) else F.const)
+        * (toM fun a k => U a (σ k))ᵀ := by
+  intro F σ invE
+  have hk : d - ps.getD d ≤ d := Nat.sub_le _ _
+  funext i b
+  have hδ : (if i = b then (1 : α) else 0) = ∑ k, U i (σ k) * U b (σ k) := by
+    have h1 := congrFun (congrFun hU i) b
+    rw [Matrix.mul_apply] at h1
+    simp only [Matrix.transpose_apply, Matrix.one_apply] at h1
+    rw [← h1]
+    exact (Equiv.sum_comp (permEquiv d neg _ hk) (fun j => U i j * U b j)).symm
+  have hL : toM (denote F.eigvecs F.invEigvals F.const) i b =
+      F.const * ((if i = b then (1 : α) else 0) - ∑ q : Fin r, U i (σ (Fin.castLE hr q)) * U b (σ (Fin.castLE hr q)))
+        + ∑ q : Fin r, U i (σ (Fin.castLE hr q)) * invE (σ (Fin.castLE hr q)) * U b (σ (Fin.castLE hr q)) := by
+    simp only [denote, sumFin_eq]
+    rfl
+  rw [hL, sum_castLE hr (fun k => U i (σ k) * U b (σ k)),
+    sum_castLE hr (fun k => U i (σ k) * invE (σ k) * U b (σ k)), hδ]
+  rw [Matrix.mul_apply]
+  simp only [Matrix.mul_diagonal, Matrix.transpose_apply]
+  rw [← Finset.sum_sub_distrib, Finset.mul_sum, ← Finset.sum_add_distrib]
+  apply Finset.sum_congr rfl
+  intro k _
+  by_cases hkr : k.val < r
+  · simp only [hkr, if_true]; ring
+  · simp only [hkr, if_false]; ring
+
+
+/-- `const` is the sum of the root values of all directions after the first `r` (in rolled / flipped order),
+divided by `real_dim - r` (by 1 when that is not positive) -/
+theorem const_root_fields [Field α] [BEq α] [Max α] {d r : Nat} (hr : r ≤ d) (pw : α → α) (neg : Bool)
+    (ps : Option Nat) (ridge : α) (e : Vec α d) (U : Mat α d d) :
+    (lowRankRootFields hr pw neg ps ridge e U).const =
+      (∑ k : Fin d, if r ≤ k.val then invEigs pw ridge (maskedEigs ps e) (perm d neg (d - ps.getD d) k) else 0)
+        / (if r < ps.getD d then ((ps.getD d - r : Nat) : α) else 1) := by
+  simp only [lowRankRootFields, sumFin_eq]
+  rw [sum_tail hr (fun k => invEigs pw ridge (maskedEigs ps e) (perm d neg (d - ps.getD d) k))]
+
+/-- flip: position `k` of the new order is the `k`-th largest eigenvalue (`eigh` sorts ascending) -/
+theorem perm_pos (d k : Nat) (i : Fin d) : (perm d false k i).val = d - 1 - i.val := rfl
+
+/-- roll by the number of padded dimensions `d - p`: position `i < p` is ascending index `i + (d - p)`
+(the `i`-th smallest unpadded eigenvalue), positions `i ≥ p` are the padded ones -/
+theorem perm_neg (d p : Nat) (hp : p ≤ d) (i : Fin d) :
+    (perm d true (d - p) i).val = if i.val < p then i.val + (d - p) else i.val - p := by
+  have hi := i.isLt
+  simp only [perm, if_true]
+  split
+  · exact Nat.mod_eq_of_lt (by omega)
+  · have : i.val + (d - p) = (i.val - p) + d := by omega
+    rw [this, Nat.add_mod_right, Nat.mod_eq_of_lt (by omega)]
+
+/-- with padding, the root values at the positions `k ≥ padding_start` of the new order are zero -/
+theorem invE_padded_zero [Field α] [BEq α] [LawfulBEq α] [Max α] {d : Nat} (pw : α → α) (neg : Bool) (p : Nat) (hp : p ≤ d)
+    (ridge : α) (e : Vec α d) (k : Fin d) (hk : p ≤ k.val) :
+    invEigs pw ridge (maskedEigs (some p) e) (perm d neg (d - (some p).getD d) k) = 0 := by
+  have hlt := k.isLt
+  have hidx : (perm d neg (d - p) k).val < d - p := by
+    cases neg
+    · rw [perm_pos]; omega
+    · rw [perm_neg d p hp, if_neg (by omega)]; omega
+  have hm : maskedEigs (some p) e (perm d neg (d - p) k) = 0 := by
+    simp only [maskedEigs, ixMask]
+    rw [if_neg (by omega), mul_zero]
+  simp only [Option.getD_some, invEigs, hm, beq_self_eq_true, if_true]
+
+
+/-- with `padding_start = p`, `r < p ≤ d`: `const` is the MEAN over the `p - r` unpadded, not retained directions -/
+theorem const_is_mean_unpadded [Field α] [BEq α] [LawfulBEq α] [Max α] {d r : Nat} (hr : r ≤ d) (pw : α → α) (neg : Bool)
+    (p : Nat) (hrp : r < p) (hp : p ≤ d) (ridge : α) (e : Vec α d) (U : Mat α d d) :
+    (lowRankRootFields hr pw neg (some p) ridge e U).const =
+      (∑ k : Fin d, if r ≤ k.val ∧ k.val < p
+          then invEigs pw ridge (maskedEigs (some p) e) (perm d neg (d - p) k) else 0) / ((p - r : Nat) : α) := by
+  rw [const_root_fields]
+  simp only [Option.getD_some, if_pos hrp]
+  congr 1
+  apply Finset.sum_congr rfl
+  intro k _
+  by_cases h1 : r ≤ k.val
+  · by_cases h2 : k.val < p
+    · rw [if_pos h1, if_pos ⟨h1, h2⟩]
+    · rw [if_pos h1, if_neg (by omega)]
+      exact invE_padded_zero pw neg p hp ridge e k (by omega)
+  · rw [if_neg h1, if_neg (by omega)]
+
+/-- a retained root value is the exact inverse `p`-th root of its (regularized) eigenvalue, given the specification of
+the real power `pw x = x^(-1/p)` on positive numbers; eigenvalues of `A + ridge·I`, `A` PSD, are `≥ ridge > 0` -/
+theorem invEigs_exact [Field α] [LinearOrder α] [IsStrictOrderedRing α] [BEq α] [LawfulBEq α] {d : Nat} (pw : α → α) (p : Nat)
+    (hpw : ∀ x : α, 0 < x → pw x ^ p * x = 1) (ridge : α) (hridge : 0 < ridge) (e : Vec α d) (i : Fin d)
+    (hi : ridge ≤ e i) : invEigs pw ridge e i ^ p * e i = 1 := by
+  have hpos : 0 < e i := lt_of_lt_of_le hridge hi
+  have hne : (e i == 0) = false := by
+    rw [beq_eq_false_iff_ne]; exact ne_of_gt hpos
+  simp only [invEigs, hne]
+  rw [max_eq_left hi]
+  exact hpw _ hpos
+
+
+/-- unpacking the packed root gives back the fields (unless `padding_start == 0`, where the root is all zeros) -/
+theorem lowRankRoot_unpack [Field α] [BEq α] [LawfulBEq α] [Max α] {d r : Nat} (h : r + 2 < d) (pw : α → α) (neg : Bool)
+    (ps : Option Nat) (hps : ps ≠ some 0) (ridge : α) (e : Vec α d) (U : Mat α d d) :
+    lowRankUnpack h (lowRankRoot h pw neg ps ridge e U) =
+      lowRankRootFields (r := r) (by omega) pw neg ps ridge e U := by
+  have hval : lowRankRoot h pw neg ps ridge e U =
+      lowRankPack (lowRankRootFields (r := r) (by omega) pw neg ps ridge e U).eigvecs
+        (lowRankRootFields (r := r) (by omega) pw neg ps ridge e U).invEigvals
+        (lowRankRootFields (r := r) (by omega) pw neg ps ridge e U).const := by
+    unfold lowRankRoot
+    cases ps with
+    | none => rfl
+    | some p =>
+      cases p with
+      | zero => exact absurd rfl hps
+      | succ q => rfl
+  rw [hval]
+  simp only [lowRankUnpack, lowRankPack, fdUnpack_fdPack (one_ne_zero) h]
+  rfl
 
 end PrecondVerif.LowRank
